@@ -573,15 +573,15 @@ twin('C04', 'loadbefore-swapped-operands', FSPY, 'FileStorage.loadBefore',
 RECPY = 'ZODB/fsrecover.py'
 breaker('C17', 'copy-restore-txn-tid', 'C17.R1', BSPY, 'copy',
         '''dest.restore(oid, r.tid, r.data, r.version,
-                             r.data_txn, transaction)''',
+                                 r.data_txn, transaction)''',
         '''dest.restore(oid, transaction.tid, r.data, r.version,
-                             r.data_txn, transaction)''')
+                                 r.data_txn, transaction)''')
 breaker('C17', 'blobcopy-restore-no-hint', 'C17.R1', BLOBPY,
         'copyTransactionsFromTo',
-        '''                destination.restore(record.oid, record.tid, record.data,
-                                    '', record.data_txn, trans)''',
-        '''                destination.restore(record.oid, record.tid, record.data,
-                                    '', None, trans)''')
+        '''                    destination.restore(record.oid, record.tid, record.data,
+                                        '', record.data_txn, trans)''',
+        '''                    destination.restore(record.oid, record.tid, record.data,
+                                        '', None, trans)''')
 breaker('C17', 'copy-begin-no-status', 'C17.R2', BSPY, 'copy',
         'dest.tpc_begin(transaction, tid, transaction.status)',
         'dest.tpc_begin(transaction, tid)')
@@ -617,9 +617,9 @@ breaker('C17', 'recover-abort-skipped', 'C17.R5', RECPY, 'recover',
         '''            print("error copying transaction:", err)''')
 twin('C17', 'copy-restore-inline-oid', BSPY, 'copy',
      '''dest.restore(oid, r.tid, r.data, r.version,
-                             r.data_txn, transaction)''',
+                                 r.data_txn, transaction)''',
      '''dest.restore(r.oid, r.tid, r.data, r.version,
-                             r.data_txn, transaction)''')
+                                 r.data_txn, transaction)''')
 twin('C17', 'scan-guard-spelling', RECPY, 'scan',
      '''                if l_ == 0:''', '''                if not l_ > 0:''')
 
@@ -1895,22 +1895,22 @@ breaker('C17', 'checktxn-empty-txn-refused', 'C17.R7', FMTPY,
         'FileStorageFormatter.checkTxn',
         'if th.tlen < th.headerlen():', 'if not th.tlen > th.headerlen():')
 twin('C17', 'copy-blob-test-in-local', BLOBPY, 'copyTransactionsFromTo',
-     '''            if is_blob_record(record.data):
-                try:''',
-     '''            isblob = is_blob_record(record.data)
-            if isblob:
-                try:''')
+     '''                if is_blob_record(record.data):
+                    try:''',
+     '''                isblob = is_blob_record(record.data)
+                if isblob:
+                    try:''')
 twin('C17', 'copy-blob-data-and-test', BLOBPY, 'copyTransactionsFromTo',
-     '''            if is_blob_record(record.data):
-                try:''',
-     '''            if record.data and is_blob_record(record.data):
-                try:''')
+     '''                if is_blob_record(record.data):
+                    try:''',
+     '''                if record.data and is_blob_record(record.data):
+                    try:''')
 breaker('C17', 'copy-blob-skip-packed', 'C17.R8', BLOBPY,
         'copyTransactionsFromTo',
-        '''            if is_blob_record(record.data):
-                try:''',
-        '''            if trans.status != 'p' and is_blob_record(record.data):
-                try:''')
+        '''                if is_blob_record(record.data):
+                    try:''',
+        '''                if trans.status != 'p' and is_blob_record(record.data):
+                    try:''')
 twin('C18', 'nochange-sum-operands-swapped', RZPY, 'do_backup',
      'if srcsz == reposz and srcsum == reposum:',
      'if reposum == srcsum and reposz == srcsz:')
@@ -2191,21 +2191,21 @@ twin('C08', 'undolog-recheck-split', FSPY, 'FileStorage.undoLog',
 
 # ---- round 5 rules ---------------------------------------------------------
 breaker('C17', 'copy-skips-dataless-records', 'C17.R13', BSPY, 'copy',
-        '''            oid = r.oid
-            if verbose:''',
-        '''            oid = r.oid
-            if r.data is None:
-                continue
-            if verbose:''')
+        '''                oid = r.oid
+                if verbose:''',
+        '''                oid = r.oid
+                if r.data is None:
+                    continue
+                if verbose:''')
 twin('C17', 'copy-verbose-branch-for-dataless', BSPY, 'copy',
-     '''            oid = r.oid
-            if verbose:
-                print(oid_repr(oid), r.version, len(r.data))''',
-     '''            oid = r.oid
-            if verbose and r.data is None:
-                print(oid_repr(oid), r.version, 'no data')
-            elif verbose:
-                print(oid_repr(oid), r.version, len(r.data))''')
+     '''                oid = r.oid
+                if verbose:
+                    print(oid_repr(oid), r.version, len(r.data))''',
+     '''                oid = r.oid
+                if verbose and r.data is None:
+                    print(oid_repr(oid), r.version, 'no data')
+                elif verbose:
+                    print(oid_repr(oid), r.version, len(r.data))''')
 breaker('C17', 'recover-skips-records', 'C17.R13', RECPY, 'recover',
         '''                ofs.restore(r.oid, r.tid, r.data, '', r.data_txn,
                             txn)
@@ -2423,16 +2423,6 @@ breaker('C13', 'wrapper-changed-since-end-before-compare', 'C13.R14', BLOBPY,
                             return True''')
 
 # ---- F57 / F58 ---------------------------------------------------------------
-breaker('C03', 'readcurrent-without-join', 'C03.R10', CONNPY,
-        'Connection.readCurrent',
-        '''            if self._needs_to_join:
-                # The dependency is checked when this connection commits:
-                # it has to take part in the transaction even if it
-                # writes nothing itself.
-                self.transaction_manager.get().join(self)
-                self._needs_to_join = False
-''',
-        '''''')
 breaker('C03', 'readcurrent-ghost-not-loaded', 'C03.R10', CONNPY,
         'Connection.readCurrent',
         '''        if ob._p_changed is None:
@@ -2449,3 +2439,20 @@ twin('C03', 'readcurrent-activate-always', CONNPY, 'Connection.readCurrent',
 ''',
      '''        ob._p_activate()
 ''')
+
+
+# ---- F59 -------------------------------------------------------------------
+breaker('C17', 'copy-failure-leaves-transaction-open', 'C17.R14', BSPY, 'copy',
+        '''            dest.tpc_abort(transaction)
+            raise''',
+        '''            raise''')
+breaker('C17', 'blobcopy-abort-only-for-exception', 'C17.R14', BLOBPY,
+        'copyTransactionsFromTo',
+        '''        except BaseException:
+            # Don't leave the destination in the middle of a transaction
+            # (and holding its commit lock).
+            destination.tpc_abort(trans)
+            raise''',
+        '''        except POSKeyError:
+            destination.tpc_abort(trans)
+            raise''')
